@@ -99,10 +99,10 @@ func checkC04(r *mon.Run) {
 		"flipping the timestamp or ExpTime may make a hop expired instead of MAC-invalid; either refusal satisfies the statement",
 	}
 	rng := r.Rand("c04")
-	nMulti := r.Pick(6, 60)
-	pathsPer := r.Pick(25, 60)
+	nMulti := r.Pick(16, 150)
+	pathsPer := r.Pick(40, 80)
 	bitSample := r.Pick(40, 0) // 0 = all bits
-	worlds(r, rng, nMulti, []int{6}, false, func(w *world, wi int) {
+	worlds(r, rng, nMulti, []int{6}, false, func(w *world, wi int, rng *rand.Rand) {
 		var fl []flow
 		for _, pr := range w.pairs(rng, 0) {
 			fl = append(fl, w.flows(rng, pr[0], pr[1])...)
@@ -141,7 +141,7 @@ func checkC04(r *mon.Run) {
 			}
 		}
 	})
-	r.Require(int64(r.Pick(10000, 300000)), 20, "refused_at_hop_as", "refused_scmp")
+	r.Require(int64(r.Pick(40000, 1000000)), 20, "refused_at_hop_as", "refused_scmp")
 }
 
 func c04Judge(r *mon.Run, w *world, f *flow, mut []byte, wk *simnet.Walk, t tamper, pos []int) {
@@ -194,9 +194,9 @@ func checkC10(r *mon.Run) {
 		"flags on interfaces the packet does not traverse over an external link (interface 0, the unused side at a segment change) are recorded, not judged",
 	}
 	rng := r.Rand("c10")
-	nMulti := r.Pick(8, 80)
+	nMulti := r.Pick(24, 300)
 	pathsPer := r.Pick(60, 200)
-	worlds(r, rng, nMulti, []int{7}, false, func(w *world, wi int) {
+	worlds(r, rng, nMulti, []int{7}, false, func(w *world, wi int, rng *rand.Rand) {
 		var fl []flow
 		for _, pr := range w.pairs(rng, 0) {
 			fl = append(fl, w.flows(rng, pr[0], pr[1])...)
@@ -209,7 +209,7 @@ func checkC10(r *mon.Run) {
 			c10Flow(r, rng, w, &fl[i])
 		}
 	})
-	r.Require(int64(r.Pick(3000, 60000)), 20, "scmp_error_returned", "traceroute_ingress_answered", "traceroute_egress_answered", "traceroute_untraversed_flag")
+	r.Require(int64(r.Pick(10000, 200000)), 20, "scmp_error_returned", "traceroute_ingress_answered", "traceroute_egress_answered", "traceroute_untraversed_flag")
 }
 
 type ifOwner struct {
